@@ -66,6 +66,10 @@ pub enum Step {
     /// session's stream must stay one well-formed stream.
     #[serde(alias = "SecondInput")]
     InputAgain { content: Content, after_end: bool },
+    /// the client cancels the most recent run through `POST /sessions/{id}/cancel`, this many ms
+    /// after the previous step (a thread run's session, or a thread-less session): whatever
+    /// cancelling does to the run, its lifecycle frames must still be complete
+    Cancel { after_ms: u64, thread_run: bool },
     Branch,
     BlockArtifacts,
     UnblockArtifacts,
@@ -302,6 +306,23 @@ fn generate_runs(run_seed: u64, tier: Tier) -> RunsScenario {
     let mut irng = Rng::derive(run_seed, "c07:invalid-byte");
     if irng.chance(1, 5) {
         crate::esim::inject_invalid_byte(&mut script, &mut irng);
+    }
+    // own sub-stream: a third of the runs that are not waited for are cancelled 0-30 ms in, and 1 in
+    // 8 of the others after their end
+    let mut crng = Rng::derive(run_seed, "c07:cancel");
+    let mut k = 0;
+    while k < steps.len() {
+        let (is_post, is_session, waited) = match &steps[k] {
+            Step::Post { wait, .. } => (true, false, *wait),
+            Step::Session { wait, .. } => (false, true, *wait),
+            _ => (false, false, true),
+        };
+        let next_is_again = matches!(steps.get(k + 1), Some(Step::InputAgain { .. }));
+        if (is_post || is_session) && !next_is_again && crng.chance(1, if waited { 8 } else { 3 }) {
+            steps.insert(k + 1, Step::Cancel { after_ms: crng.below(30), thread_run: is_post });
+            k += 1;
+        }
+        k += 1;
     }
     // own sub-stream: 1 in 4 scripts carry keep-alive / unknown-type events inside a response
     let mut orng = Rng::derive(run_seed, "c07:odd-events");
@@ -685,6 +706,17 @@ fn execute_runs(sc: &RunsScenario, env: &Env) -> (Outcome, RunStats) {
                         break;
                     }
                     }
+                }
+            }
+            Step::Cancel { after_ms, thread_run } => {
+                let sid = if *thread_run { posts.last().map(|p| p.session_id.clone()) } else { sessions.last().cloned() };
+                let Some(sid) = sid else {
+                    continue;
+                };
+                engine.settle(*after_ms);
+                match engine.call("POST", &format!("/sessions/{sid}/cancel"), None) {
+                    Ok((st, _)) => stats.bump(&format!("fault:session_cancel_requested:status_{st}"), 1),
+                    Err(e) => return (Outcome::Harness(format!("cancel: {e}")), stats),
                 }
             }
             Step::InputAgain { content, after_end } => {
